@@ -41,3 +41,40 @@ Qed.
 (* lock order: one case = the list of (held, acquired) edges; failure code 1 = not acyclic *)
 Definition order_failures (cs : list (list (Z * Z))) : list (nat * nat) :=
   flat_map (fun ic => if lock_order_acyclic (snd ic) then [] else [(fst ic, 1%nat)]) (number_from 0 cs).
+
+(* ---- round 4: calls to foreign code (user callbacks, downstream writers) under a mutex ----
+   one case = (code of the call site, (recorded lock-order edges, sites)); the per-site cases carry one site and
+   fail with the site's code (so a finding can be filed narrowly), the last case carries all sites and code 1. *)
+Definition ccase := (Z * (list (Z * Z) * list site))%type.
+
+Definition callback_case_ok (c : ccase) : bool := callbacks_ok (fst (snd c)) (snd (snd c)).
+
+Definition callback_failures (cs : list ccase) : list (nat * nat) :=
+  flat_map (fun ic => if callback_case_ok (snd ic) then [] else [(fst ic, Z.to_nat (fst (snd ic)))]) (number_from 0 cs).
+
+Lemma in_number_from {A} (l : list A) n i x : In (i, x) (number_from n l) -> In x l.
+Proof.
+  revert n. induction l as [|a l IH]; cbn; intros n H; auto.
+  destruct H as [H|H]; [inversion H; auto | right; eauto].
+Qed.
+
+Lemma number_from_covers {A} (l : list A) n x : In x l -> exists i, In (i, x) (number_from n l).
+Proof.
+  revert n. induction l as [|a l IH]; cbn; intros n H; [contradiction|].
+  destruct H as [->|H]; [exists n; now left|]. destruct (IH (S n) H) as [i Hi]. exists i. now right.
+Qed.
+
+(* no failure is reported exactly when every case passes callbacks_ok *)
+Lemma callback_failures_nil_iff cs :
+  callback_failures cs = [] <-> forall c, In c cs -> callbacks_ok (fst (snd c)) (snd (snd c)) = true.
+Proof.
+  unfold callback_failures. split.
+  - intros H c Hin. destruct (number_from_covers cs 0 c Hin) as [i Hi].
+    destruct (callbacks_ok (fst (snd c)) (snd (snd c))) eqn:E; auto. exfalso.
+    assert (Hx : In (i, Z.to_nat (fst c))
+      (flat_map (fun ic => if callback_case_ok (snd ic) then [] else [(fst ic, Z.to_nat (fst (snd ic)))]) (number_from 0 cs))).
+    { apply in_flat_map. exists (i, c). split; auto. unfold callback_case_ok. cbn [snd fst]. rewrite E. now left. }
+    rewrite H in Hx. contradiction.
+  - intros H. apply flat_map_all_nil. intros [i c] Hin. unfold callback_case_ok. cbn [snd fst].
+    rewrite (H c (in_number_from _ _ _ _ Hin)). reflexivity.
+Qed.
